@@ -652,11 +652,15 @@ def check_inventory(case, res):
             for c in case["elcols"] + ["cb"]:
                 ts = sum(Fr(steps[s][k][c]) for k in cells)
                 scale = ion if c == "cb" else abs(t0[c])
-                if scale == 0:
-                    if ts != 0:
-                        bad.append((c, s, float(ts), 0.0))
+                # implicit diffusion keeps every element it tracks at >= min_mol = 1e-13 mol per cell (transport.cpp:
+                # diffuse_implicit / add_MCD_moles): a declared absolute floor, allowed for on top of the 1e-9
+                floor = Fr(2 * len(cells), 10 ** 13) if case.get("mode") == "implicit" else Fr(0)
+                if abs(ts - t0[c]) <= floor:
                     continue
-                d = abs(ts - t0[c]) / scale
+                if scale == 0:
+                    bad.append((c, s, float(ts), 0.0))
+                    continue
+                d = (abs(ts - t0[c]) - floor) / scale
                 if d > worst[0]:
                     worst = (d, c)
                 if d > TOL:
@@ -745,7 +749,14 @@ def slim(case):
     return {k: v for k, v in case.items() if k not in ("sols", "soltext", "cols")}
 
 
+REPORTED = {}
+
+
 def report(ctx, check, case, txt, r, key=None):
+    # at most 3 replay files per kind of check: the first failures are the useful ones, the rest is counted in the evidence
+    REPORTED[check] = REPORTED.get(check, 0) + 1
+    if REPORTED[check] > 3 and key is None:
+        return
     what = "%s: %s observed=%r expected=%r %s" % (check, r.get("what", r["status"]), r.get("observed"), r.get("expected"), r.get("detail", ""))
     ctx.violation(key or "%s:%s" % (check, vlib.key_of([check, slim(case), r.get("what")])), what,
                   {"kind": "input", "check": check, "case": case, "input_text": txt, "database": "phreeqc.dat",
